@@ -1,5 +1,6 @@
 """C17 rules over the samlang-heap crate (DESIGN.md §3.3): PSTR-TAG, DEALLOC-OWNER,
 UNINTERN-BEFORE-OVERWRITE, TABLE-MONOTONE. Anchors are resolved by role; missing anchors fail closed."""
+import re
 from ..core import RuleResult
 from ..cfg import cfg_of, single_def
 from ..dataflow import operand_root, root_local, field_names, call_sites
@@ -249,12 +250,37 @@ def run_tag(prog, tier, repo):
                                         bound = y[1].i if op_ == 'Gt' else y[1].i - 1
                                         if bound <= cap:
                                             edges += false_e
+                    # `fn inline_literal<const N: usize>(bytes: &[u8; N])` with size = N: the size is the length of the array every
+                    # caller passes, which is part of its type
+                    gen_ok = False
+                    arr_params = [i for i in range(1, b.nargs + 1) if re.search(r'\[u8; [A-Za-z_]\w*\]', b.locals[i].s)]
+                    sd_sz = single_def(b, r) if r is not None else None
+                    from_generic = sd_sz is not None and sd_sz[1] != 'term' and sd_sz[2][0] in ('use', 'cast') and \
+                        any(o_[0] == 'k' and o_[1].i is None and re.fullmatch(r'[A-Z]\w*', o_[1].v or '') for o_ in sd_sz[2][1:3] if isinstance(o_, tuple) and o_ and o_[0] == 'k')
+                    if arr_params and from_generic:
+                        lens = []
+                        for x in heapbodies:
+                            for bl2 in x.blocks:
+                                t2 = bl2.term
+                                if t2[0] == 'call' and not bl2.cleanup and callee(t2)[0] == b.id:
+                                    for o2 in t2[3]:
+                                        ty2 = x.locals[o2[1].local].s if o2[0] in ('c', 'm') else o2[1].ty.s
+                                        m2 = re.search(r'\[u8; (\d+)\]', ty2)
+                                        if m2:
+                                            lens.append(int(m2.group(1)))
+                                        elif re.search(r'\[u8;', ty2):
+                                            lens.append(10 ** 9)
+                        if lens and max(lens) <= cap:
+                            gen_ok = True
+                            res.ok(key, b.loc(st[3]), f'size is the const generic array length; every caller passes at most {max(lens)} bytes')
+                    if gen_ok:
+                        continue
                     if edges and cfg.edges_dominate(edges, bi):
                         res.ok(key, b.loc(st[3]), f'dominated by the true edge of size <= {cap}')
                     else:
                         res.violation(key, b.loc(st[3]), f'{b.name} builds an inline handle whose size is not proven <= {cap} '
                                       f'by a dominating comparison: longer text would overwrite the tag byte')
-    res.floor('inline handle constructions', n_inline, 10)
+    res.floor('inline handle constructions', n_inline, 6)
     return [res]
 
 
